@@ -128,6 +128,34 @@ fn plan() -> Plan {
             h.push(idx(MAct::Tick(2_000_000_000), &mut acts));
             h.extend(tail(&mut acts, &mut idx));
             hists.push((format!("(ttl-not-reached)|{}|must-not-abort", sname), h));
+            // a deadline that was removed again before the WATCH (PERSIST, or the key written anew) leaves a stale entry in
+            // the sweeper's index: the old deadline passing and the sweeper looking at that entry change nothing and must
+            // not abort (a seeded sweeper marked every key it re-validated as modified)
+            for (hname, undo) in [("persisted", vec![vec!["PERSIST", "k"]]), ("deleted-and-written-anew", { let mut v = vec![vec!["DEL", "k"]]; v.extend(seed.iter().cloned()); v })] {
+                for (tname, ns) in [("no-sweep", 150_000_000u64), ("after-sweep", 2_000_000_000u64)] {
+                    let mut h: Vec<usize> = Vec::new();
+                    for sc in seed.iter() {
+                        h.push(idx(cmd(1, sc), &mut acts));
+                    }
+                    h.push(idx(cmd(1, &["PEXPIRE", "k", "100"]), &mut acts));
+                    for u in undo.iter() {
+                        h.push(idx(cmd(1, u), &mut acts));
+                    }
+                    h.push(idx(cmd(0, &["WATCH", "k"]), &mut acts));
+                    h.push(idx(MAct::Tick(ns), &mut acts));
+                    h.extend(tail(&mut acts, &mut idx));
+                    hists.push((format!("(stale-deadline:{})|{}|{}|must-not-abort", hname, sname, tname), h));
+                }
+            }
+        } else {
+            // the watched name is absent but a key of that name once had a deadline (emptied / deleted before it ran out)
+            for (tname, ns) in [("no-sweep", 150_000_000u64), ("after-sweep", 2_000_000_000u64)] {
+                let mut h: Vec<usize> = vec![idx(cmd(1, &["RPUSH", "k", "x"]), &mut acts), idx(cmd(1, &["PEXPIRE", "k", "100"]), &mut acts), idx(cmd(1, &["LPOP", "k"]), &mut acts)];
+                h.push(idx(cmd(0, &["WATCH", "k"]), &mut acts));
+                h.push(idx(MAct::Tick(ns), &mut acts));
+                h.extend(tail(&mut acts, &mut idx));
+                hists.push((format!("(stale-deadline:emptied)|absent|{}|must-not-abort", tname), h));
+            }
         }
     }
     // no false abort: the same writes addressed to a same-shard key (ab), an other-shard key (k2), or k in another database
